@@ -3,7 +3,11 @@ package main
 import (
 	"bytes"
 	"fmt"
+	"os"
 	"runtime/debug"
+
+	"goa.design/goa/v3/codegen"
+	"goa.design/goa/v3/codegen/service"
 
 	. "goa.design/goa/v3/dsl"
 	"goa.design/goa/v3/eval"
@@ -54,50 +58,60 @@ func try(name string, fn func()) {
 }
 
 func main() {
-	try("types", func() {
+	designgen.ResetGoa()
+	ok := eval.Execute(func() {
 		API("a", func() {})
 		var T = Type("T", func() {
 			Field(1, "x", Int)
+			Field(2, "ys", ArrayOf(String))
+			Required("x")
 		})
-		var Ints = Type("Ints", ArrayOf(Int))
-		var SM = Type("SM", MapOf(String, Int))
-		var Al2 = Type("Al2", Int32, func() { Minimum(3) })
-		Service("my_svc", func() {
-			Method("get_item", func() {
+		var Al = Type("Al", String, func() { MinLength(1) })
+		Service("svc", func() {
+			Method("m1", func() {
 				Payload(func() {
-					Field(1, "mf", MapOf(Float64, String))
-					Field(3, "mt", MapOf(T, String))
-					Field(4, "mi", MapOf(Int, ArrayOf(Int)))
-					Field(5, "am", ArrayOf(MapOf(String, Int)))
-					Field(6, "mmm", MapOf(String, MapOf(String, Int)))
-					Field(7, "ints", Ints)
-					Field(8, "sm", SM)
-					Field(9, "al2", Al2)
-					Field(11, "d", Int, func() { Default(5) })
-					Field(12, "aal", ArrayOf(Al2))
-					Field(13, "mbool", MapOf(Boolean, Boolean))
-					OneOf("un", func() {
-						Field(15, "ub", Boolean)
-						Field(16, "ual", Al2)
+					Field(1, "a", Int)
+					Field(2, "b", String)
+					Field(3, "t", T)
+					Field(4, "al", Al)
+					Field(5, "fooBar", UInt, func() { Maximum(10) })
+					Field(6, "arr", ArrayOf(T))
+					Field(7, "mm", MapOf(String, T))
+					Field(8, "aa", ArrayOf(ArrayOf(Int)))
+					Field(9, "by", Bytes)
+					OneOf("choice", func() {
+						Field(10, "s", String)
+						Field(11, "tt", T)
 					})
+					Field(12, "key", String)
+					Field(13, "a1b", Float64)
+					Required("a", "key")
 				})
-				Result(Ints)
-				GRPC(func() {})
+				Result(T)
+				GRPC(func() {
+					Metadata(func() { Attribute("key"); Attribute("a") })
+				})
 			})
 			Method("m2", func() {
-				Payload(SM)
-				Result(Al2)
-				GRPC(func() {})
-			})
-			Method("m3", func() {
-				Payload(T)
-				Result(func() {
-					OneOf("only", func() {
-						Field(1, "a", Int)
-					})
-				})
+				Payload(String)
+				Result(ArrayOf(Int))
 				GRPC(func() {})
 			})
 		})
-	})
+	}, nil)
+	if !ok { panic(eval.Context.Errors) }
+	if err := eval.RunDSL(); err != nil { panic(err) }
+	dir := os.Args[1]
+	var files []*codegen.File
+	for _, s := range expr.Root.Services { files = append(files, service.Files("tb/d0/gen", s, nil)...) }
+	files = append(files, grpccodegen.ServerTypeFiles("tb/d0/gen", expr.Root)...)
+	files = append(files, grpccodegen.ClientTypeFiles("tb/d0/gen", expr.Root)...)
+	files = append(files, grpccodegen.ServerFiles("tb/d0/gen", expr.Root)...)
+	files = append(files, grpccodegen.ClientFiles("tb/d0/gen", expr.Root)...)
+	for _, f := range files {
+		p, err := f.Render(dir)
+		fmt.Println(p, err)
+	}
+	out, _ := render()
+	fmt.Println(out)
 }
